@@ -83,11 +83,13 @@ impl GPool {
         let r = self.pool.install(|| catch_unwind(AssertUnwindSafe(f)));
         match r {
             Ok(v) => Ok(v),
-            Err(_) => Err(panics()
-                .lock()
-                .unwrap()
-                .remove(&self.tag)
-                .unwrap_or_else(|| "<panic outside the pool's threads>".into())),
+            Err(_) => Err(one_line(
+                &panics()
+                    .lock()
+                    .unwrap()
+                    .remove(&self.tag)
+                    .unwrap_or_else(|| "<panic outside the pool's threads>".into()),
+            )),
         }
     }
 }
@@ -96,6 +98,16 @@ impl Drop for GPool {
     fn drop(&mut self) {
         panics().lock().unwrap().remove(&self.tag);
     }
+}
+
+/// Panic messages on one line (VIOLATION lines are line-oriented).
+pub fn one_line(s: &str) -> String {
+    s.split_whitespace().collect::<Vec<_>>().join(" ")
+}
+
+/// `vcore::catch` with the message on one line.
+pub fn pcatch<T>(f: impl FnOnce() -> T) -> Result<T, String> {
+    vcore::catch(f).map_err(|e| one_line(&e))
 }
 
 pub const POOLS_ALL: [usize; 6] = [1, 2, 3, 5, 8, 16];
